@@ -2432,6 +2432,10 @@ DLLIMPORT cfg_t *cfg_addtsec(cfg_t *cfg, const char *name, const char *title)
 		cfg_error(cfg, _("no such option '%s'"), name);
 		return NULL;
 	}
+	if (opt->type != CFGT_SEC) {
+		errno = EINVAL;
+		return NULL;
+	}
 	val = cfg_setopt(cfg, opt, title);
 	if (!val)
 		return NULL;
